@@ -258,6 +258,7 @@ def rederive(n0: int, a: int, how: int, own: bool, pre: bool, refs: bool) -> boo
     a, how, own, pre, refs = pick(a, 0, 1), pick(how, 0, len(REDERIVE) - 1), pickb(own), pickb(pre), pickb(refs)
     if how == 4 and not refs:
         return True
+    n100 = n0 + 100                    # (arithmetic on a symbolic value must happen under tracing)
     with notrace():
         m = new_model("RD")
         RB0 = m.new_space("RB0")
@@ -267,7 +268,7 @@ def rederive(n0: int, a: int, how: int, own: bool, pre: bool, refs: bool) -> boo
         RB2.new_cells("foo", formula="lambda: n + 2")
         if refs:
             RB1.r = n0
-            RB2.r = n0 + 100
+            RB2.r = n100
         else:
             m.r = n0                   # (a model-level reference: the same for every definer)
         RB3 = m.new_space("RB3")
@@ -285,7 +286,7 @@ def rederive(n0: int, a: int, how: int, own: bool, pre: bool, refs: bool) -> boo
     exp_foo, exp_r, exp_bar = a + 1, n0, None
     if how == 0:
         RS.remove_bases(RB1)
-        exp_foo, exp_r = a + 2, (n0 + 100 if refs else n0)
+        exp_foo, exp_r = a + 2, (n100 if refs else n0)
     elif how == 1:
         del RB1.foo
         exp_foo = a + 2
@@ -296,7 +297,7 @@ def rederive(n0: int, a: int, how: int, own: bool, pre: bool, refs: bool) -> boo
         exp_bar = (a + 1) * 10
     elif how == 4:
         del RB1.r
-        exp_r = n0 + 100
+        exp_r = n100
     elif how == 5:
         RB1.cells["foo"].formula = "lambda: n + 5"
         exp_foo = a + 5
